@@ -37,6 +37,7 @@ noncomputable def stdQuant (K : Type) (U : String → Nat → Prop) : Quant K wh
     | .bool, p => decide (∃ b : Bool, p (.b b) = true)
     | .u a, p => decide (∃ k, U a k ∧ p (.u k) = true)
 
+/-- (bookkeeping, not a property of the code) the quantifier ranges `stdQuant` are the standard ones -/
 theorem stdQuant_std (K : Type) (U : String → Nat → Prop) : Std (stdQuant K U) U := by
   constructor <;> intros <;> simp [stdQuant]
 
@@ -54,9 +55,9 @@ reads it, one of the interpretations Z3 may choose) exactly what the HOL term me
 values, hence implication in both directions at every polarity, quantifiers included — under every
 valuation that reads each auxiliary constant `rx` as `of_nat x` (`TROk`). -/
 theorem convert_refines {K : Type} (N : Num K) (Q : Quant K) (hQ : Compat N Q)
-    (σ : String → Val K) (F : String → Val K → Val K) (t : H) (st st' : St) (r : R)
+    (O : Oracle K) (σ : String → Val K) (F : String → Val K → Val K) (t : H) (st st' : St) (r : R)
     (h : convert t st = (.ok r, st')) (hσ : TROk N σ st') :
-    evalZ N Q (div0H N) σ F [] r.toZ = evalH N Q σ F [] t :=
+    evalZ N Q (div0H N) σ F [] r.toZ = evalH N Q O σ F [] t :=
   convert_sound hQ h hσ
 
 /-- ∀n::nat. (n - x) + x ≥ n ∧ of_nat y ≥ 0  (binder, truncated subtraction, of_nat of a free variable) -/
@@ -66,11 +67,11 @@ def exTerm : H :=
 def exSt : St := { varNames := ["x", "y"], assms := [], toReal := [] }
 
 example : ∃ r st', convert exTerm exSt = (.ok r, st') ∧ st'.toReal = [("y", "ry")] := ⟨_, _, rfl, rfl⟩
-example (σ : String → Val Rat) (F) (hσ : σ "ry" = vtoReal ratNum (σ "y")) (r : R) (st' : St)
+example (O : Oracle Rat) (σ : String → Val Rat) (F) (hσ : σ "ry" = vtoReal ratNum (σ "y")) (r : R) (st' : St)
     (h : convert exTerm exSt = (.ok r, st')) :
     evalZ ratNum (stdQuant Rat (fun _ _ => True)) (div0H ratNum) σ F [] r.toZ
-      = evalH ratNum (stdQuant Rat (fun _ _ => True)) σ F [] exTerm := by
-  refine convert_refines ratNum _ (relativise_nat_binders _ _ _ (stdQuant_std _ _)) σ F exTerm exSt st' r h ?_
+      = evalH ratNum (stdQuant Rat (fun _ _ => True)) O σ F [] exTerm := by
+  refine convert_refines ratNum _ (relativise_nat_binders _ _ _ (stdQuant_std _ _)) O σ F exTerm exSt st' r h ?_
   have hst : st'.toReal = [("y", "ry")] :=
     (congrArg (fun p => p.2.toReal) h).symm.trans (rfl : (convert exTerm exSt).2.toReal = [("y", "ry")])
   intro x rx hx
@@ -86,7 +87,8 @@ example (σ : String → Val Rat) (F) (hσ : σ "ry" = vtoReal ratNum (σ "y")) 
 /-- Soundness of `solve` (partial: see below).  If Z3 is right that the assertion set built by
 `solve_core` is unsatisfiable (for every interpretation of x / 0, of the constants and of the
 function symbols), then under every valuation the premises imply the conclusion in HOL —
-including the cases where premises or the conclusion were untranslatable and dropped.
+including the cases where premises or the conclusion were untranslatable and dropped (their HOL
+values are given by the oracle `O`, arbitrary: the proof never looks at them).
 PARTIAL: the valuation is assumed to read the auxiliary constants as intended (`TROk`: rx is
 `of_nat x`) and to satisfy the recorded side assertions (`x ≥ 0` for nat variables and generated
 names).  Missing in Lean: that every HOL valuation (nat variables ≥ 0) extends to such a
@@ -97,9 +99,9 @@ theorem solve_sound_partial {K : Type} (N : Num K) (Q : Quant K) (hQ : Compat N 
     (h : solveCoreFull vars As C = .ok (zs, st'))
     (unsat : ∀ (div0 : K → K) (σ : String → Val K) (F : String → Val K → Val K),
       ¬ ∀ z ∈ zs, HoldsZ N Q div0 σ F z)
-    (σ : String → Val K) (F : String → Val K → Val K)
+    (O : Oracle K) (σ : String → Val K) (F : String → Val K → Val K)
     (hσ : TROk N σ st') (hside : ∀ p ∈ st'.assms, HoldsZ N Q (div0H N) σ F p.2)
-    (hAs : ∀ A ∈ As, HoldsH N Q σ F A) : HoldsH N Q σ F C := by
+    (hAs : ∀ A ∈ As, HoldsH N Q O σ F A) : HoldsH N Q O σ F C := by
   apply Classical.byContradiction
   intro hC
   exact unsat (div0H N) σ F (solveCore_countermodel hQ h hσ hside hAs hC)
@@ -109,7 +111,32 @@ example : ∃ zs st', solveCoreFull [("x", .nat), ("y", .nat)] [.ge (.var "x" .n
     (.eq (.add (.sub true (.var "x" .nat) (.var "y" .nat)) (.var "y" .nat)) (.var "x" .nat)) = .ok (zs, st')
     ∧ zs.length = 4 := ⟨_, _, rfl, rfl⟩
 
-/-- An untranslatable conclusion is never counted as proved: nothing is negated, so the goal is
+/-- The hypotheses of `solve_sound_partial` are satisfiable together with an untranslatable
+(dropped) premise that holds: goal `P ⟶ x ≥ 1 ⟶ x - 1 + 1 = x` (x :: nat, P outside the fragment),
+x = 1, oracle value of P true. -/
+def exAs : List H := [.unsup 0, .ge (.var "x" .nat) (.num .nat 1)]
+def exC : H := .eq (.add (.sub true (.var "x" .nat) (.num .nat 1)) (.num .nat 1)) (.var "x" .nat)
+def exσ : String → Val Rat := fun _ => .i 1
+def exO : Oracle Rat := ⟨fun _ => .b true, fun v => v⟩
+
+example (Q : Quant Rat) : ∃ zs st', solveCoreFull [("x", .nat)] exAs exC = .ok (zs, st')
+    ∧ zs.length = 3 ∧ TROk ratNum exσ st'
+    ∧ (∀ p ∈ st'.assms, HoldsZ ratNum Q (div0H ratNum) exσ (fun _ v => v) p.2)
+    ∧ (∀ A ∈ exAs, HoldsH ratNum Q exO exσ (fun _ v => v) A)
+    ∧ HoldsH ratNum Q exO exσ (fun _ v => v) exC := by
+  refine ⟨_, _, rfl, rfl, ?_, ?_, ?_, ?_⟩
+  · intro x rx hx; simp [lookup] at hx
+  · intro p hp
+    have hst : ∀ (st' : St), st'.assms = [("x", Z.ge (.const "x" .int) (.ilit 0))] → p ∈ st'.assms →
+        HoldsZ ratNum Q (div0H ratNum) exσ (fun _ v => v) p.2 := by
+      intro st' h1 h2; rw [h1] at h2; simp only [List.mem_singleton] at h2; subst h2; rfl
+    exact hst _ rfl hp
+  · intro A hA
+    simp only [exAs, List.mem_cons, List.mem_nil_iff, or_false] at hA
+    rcases hA with rfl | rfl <;> rfl
+  · rfl
+
+/-- (restatement of the definition, kept as a pin) An untranslatable conclusion is never counted as proved: nothing is negated, so the goal is
 accepted only if the translated premises are unsatisfiable by themselves. -/
 theorem untranslatable_conclusion_not_negated (vars : List (String × Ty)) (As : List H) (st st' : St)
     (acc : List Z) (C : H)
@@ -121,7 +148,7 @@ theorem untranslatable_conclusion_not_negated (vars : List (String × Ty)) (As :
   simp only [hnd, haux, hC]
   rfl
 
-example : solveCore [("i", .int)] [] .unsup = .ok [] := rfl
+example : solveCore [("i", .int)] [] (.unsup 0) = .ok [] := rfl
 
 /-- Goals with two variables of one name are refused (nat and int share a Z3 sort). -/
 theorem duplicate_names_refused (vars : List (String × Ty)) (As : List H) (C : H)
@@ -130,7 +157,7 @@ theorem duplicate_names_refused (vars : List (String × Ty)) (As : List H) (C : 
 
 example : solveCore [("x", .nat), ("x", .int)] [] (.eq (.var "x" .nat) (.var "x" .int)) = .error .z3exc := rfl
 
-/-- With `check_z3` off the macro accepts whatever the solver would say: the property needs the
+/-- (restatement of the definition of `macroAccepts`, kept as a pin) With `check_z3` off the macro accepts whatever the solver would say: the property needs the
 flag on (the harness checks it at import and after every call). -/
 theorem check_z3_off_unsound : macroAccepts false false = true ∧ ∀ b, macroAccepts true b = b := by
   constructor <;> simp [macroAccepts]
